@@ -253,6 +253,11 @@ def opt_class(name):
     return getattr(torch.optim, name)
 
 
+def opt_args(ospec):
+    """JSON lists (betas) -> tuples"""
+    return {k: (tuple(v) if isinstance(v, list) else v) for k, v in ospec.get("args", {}).items()}
+
+
 def sched_class(name):
     return getattr(torch.optim.lr_scheduler, name)
 
@@ -287,7 +292,7 @@ def reach_learnables(roots, max_nodes=200000):
         if count[0] > max_nodes:
             raise RuntimeError("reachability walk exceeded %d nodes" % max_nodes)
         if isinstance(o, torch.Tensor):
-            if isinstance(o, torch.nn.Parameter) and o.requires_grad:
+            if isinstance(o, torch.nn.Parameter) and o.requires_grad and o.numel() > 0:
                 out.append((path, o))
             return
         if isinstance(o, dict):
